@@ -5,7 +5,8 @@ from . import gen_events as G
 from .buildref import Cache, run_events
 from .treefmt import Node, Tok, STATIC, show_text
 
-TOKS = ["T5:43", "T5:97", "T5:", "T6:43", "T6:233", "X100", "X101", "X102", "X103", "X104", "T7:108.101.116", "T7:233", "T100:43", "T103:108.101.116"]
+TOKS = ["T5:43", "T5:97", "T5:", "T6:43", "T6:233", "X100", "X101", "X102", "X103", "X104", "T7:108.101.116", "T7:233", "T100:43", "T103:108.101.116",
+        "T104:233"]
 
 
 def toks_of(t, out):
@@ -33,7 +34,7 @@ class C11(Property):
 
     def cases(self, tier, seed):
         res = [("corpus", "Q S1 T5:43 X100 X102 T5:97 T6:97 F / S1 X100 T5:43 F"),
-               ("corpus", "Q S1 X101 T5: X104 T7:233 F"), ("corpus", "Q S1 T100:43 X100 F / S2 X103 T103:108.101.116 T7:108.101.116 F")]
+               ("corpus", "Q S1 X101 T5: X104 T7:233 F"), ("corpus", "Q S1 X104 T104:233 T5:97 F / S1 T104:233 X104 F"), ("corpus", "Q S1 T100:43 X100 F / S2 X103 T103:108.101.116 T7:108.101.116 F")]
         rng = Rng(seed + 11)
         # bounded-exhaustive: all ordered pairs of token forms, in one tree and across two trees
         for a in TOKS:
@@ -57,7 +58,22 @@ class C11(Property):
             toks_of(fin, toks)
         if " | " not in impl:
             return "malformed output " + impl[:100]
-        descr, rows = impl.split(" | ")
+        parts = impl.split(" | ")
+        if len(parts) != 4:
+            return "malformed output " + impl[:100]
+        descr, rows, dumps, same = parts
+        # the trees themselves: kinds, lengths (byte lengths of the texts) and texts
+        c2, exp_dumps = Cache(), []
+        for b in builds:
+            exp_dumps.append(run_events(c2, b)[1].dump())
+        if dumps != " / ".join(exp_dumps):
+            return "trees differ from the events: got `%s`, expected `%s`" % (dumps[:200], " / ".join(exp_dumps)[:200])
+        # tokens with the same kind and text are one allocation, however they were added (by kind alone or with text)
+        ids, seen = [], {}
+        for t in toks:
+            ids.append(seen.setdefault((t.kind, t.text), len(seen)))
+        if same != "same " + ",".join(str(i) for i in ids):
+            return "token sharing differs: got `%s`, expected `same %s`" % (same, ",".join(str(i) for i in ids))
         descr = descr.split(" ") if descr else []
         rows = rows.split(",") if rows else []
         if len(descr) != len(toks):
